@@ -314,6 +314,66 @@ def run(check, an: Analysis):
     _run_rest(check, an)
 
 
+#: modules through which dates, delays, rates and the clock travel
+TIME_MODULES = ('usim._core.loop', 'usim._core.waitq', 'usim._primitives.timing',
+                'usim._primitives.notification', 'usim._primitives.task',
+                'usim._primitives.context', 'usim._basics.pipe')
+_COERCIONS = ('float', 'int', 'round', 'abs', 'divmod')
+
+
+def check_exact_arithmetic(check, an: Analysis, rule: str, modules=TIME_MODULES):
+    """dates, delays and the clock are compared and added exactly as given: the modules they
+    travel through never round, truncate, convert or compare with a tolerance (no
+    float()/int()/round()/abs(), nothing of `math`/`decimal`/`fractions`, no tiny epsilon
+    literal) -- `float('inf')` as a literal default is the one accepted form"""
+    n_calls, bad = 0, None
+    for name in modules:
+        module = an.p.modules.get(name)
+        if module is None:
+            raise AnalysisError('module %s is gone' % name)
+        imported = set()
+        for node in ast.walk(module.tree):
+            if isinstance(node, ast.Import):
+                imported.update((a.asname or a.name).split('.')[0] for a in node.names
+                                if a.name.split('.')[0] in ('math', 'decimal', 'fractions',
+                                                            'numbers', 'statistics'))
+            elif isinstance(node, ast.ImportFrom) and not node.level and node.module and \
+                    node.module.split('.')[0] in ('math', 'decimal', 'fractions',
+                                                  'statistics'):
+                imported.update(a.asname or a.name for a in node.names)
+        shadowed = {n.id for n in ast.walk(module.tree) if isinstance(n, ast.Name)
+                    and isinstance(n.ctx, ast.Store)} | {
+            a.arg for n in ast.walk(module.tree) if isinstance(n, ast.arguments)
+            for a in n.args + n.kwonlyargs + n.posonlyargs}
+        for node in ast.walk(module.tree):
+            what = None
+            if isinstance(node, ast.Call):
+                n_calls += 1
+                func = node.func
+                if isinstance(func, ast.Name) and func.id in _COERCIONS and \
+                        func.id not in shadowed:
+                    literal = len(node.args) == 1 and isinstance(
+                        node.args[0], ast.Constant) and isinstance(node.args[0].value, str)
+                    if not (func.id == 'float' and literal):
+                        what = ast.unparse(node)[:50]
+                elif isinstance(func, ast.Name) and func.id in imported:
+                    what = ast.unparse(node)[:50]
+                elif isinstance(func, ast.Attribute) and isinstance(func.value, ast.Name) \
+                        and func.value.id in imported:
+                    what = ast.unparse(node)[:50]
+            elif isinstance(node, ast.Constant) and isinstance(node.value, float) and \
+                    node.value == node.value and 0 < abs(node.value) < 1e-3:
+                what = 'the tolerance literal %r' % node.value
+            if what is not None and bad is None:
+                bad = ('%s:%d' % (module.relpath, node.lineno), what)
+    check.instance(rule, 'exact-arithmetic-on-time', bad is None and n_calls > 20 * len(modules),
+                   bad[0] if bad else 'usim/**',
+                   'no rounding, conversion or tolerance where dates, delays and rates are '
+                   'computed (%d calls in %d modules looked at)%s' % (
+                       n_calls, len(modules), '' if bad is None else ': ' + bad[1]),
+                   analysed=n_calls)
+
+
 def check_clock_writers(check, an: Analysis, rule: str):
     """the clock holds the start time exactly as given, then the keys popped from the
     queue exactly as queued: nothing rounds, converts or advances it"""
@@ -424,6 +484,7 @@ def _run_rest(check, an: Analysis):
     # ---- L6 (subscriptions of the other time conditions: Delay, ...) ---------
     from . import c07
     c07.check_immediacy(check, an, 'L6')
+    check_exact_arithmetic(check, an, 'L5')
     # ---- L9 -----------------------------------------------------------------
     from . import _scope, c03
     c03._check_signal_lifecycles(
